@@ -376,7 +376,8 @@ class Driver:
                     obs['state_setter'] = _guard(lambda: setattr(w, 'user_state', 'parent-was-here'))
                 if ev['action'] == 'terminate':
                     t0 = time.time()
-                    r = with_timeout(lambda: w.terminate(timeout=T, force=False), T * 2 + 5)
+                    Tev = ev.get('timeout', T)
+                    r = with_timeout(lambda: w.terminate(timeout=Tev, force=False), Tev * 2 + 5)
                     obs.setdefault('terminate_ret', []).append(r if isinstance(r, (bool, str)) else repr(r))
                     obs.setdefault('terminate_s', []).append(round(time.time() - t0, 3))
                 else:
@@ -385,6 +386,14 @@ class Driver:
             elif ev['action'] in ('sigkill', 'sigterm', 'raise'):
                 pass
         obs['stage'] = 'events-done'
+        if case.get('kill_after'):
+            ka = case['kill_after']
+            time.sleep(ka.get('delay', 0.4))
+            try:
+                os.kill(w.pid, getattr(signal, 'SIG' + ka.get('sig', 'KILL')))
+                obs['killed'] = True
+            except ProcessLookupError:
+                obs['killed'] = False
         if case.get('forced_terminate'):
             time.sleep(case.get('forced_delay', 0.3))
             t0 = time.time()
@@ -656,6 +665,29 @@ def select_points(sites, full):
             if prev_a or next_a:
                 keep.append(i + 1)
     return keep
+
+
+def sweep_pairs(scenarios, full=True, nproc=None):
+    """Two graceful requests per run (deviation bound 2, thread kinds): for every first landing k1 the path after it is recorded,
+    then one run per second landing k2 > k1 on that path (this is how a request landing inside the handling of the previous one is
+    reached)."""
+    base_cases = [dict(s, events=[]) for s in scenarios]
+    bases = run_cases(base_cases, nproc=nproc)
+    firsts = []
+    for s, b in zip(scenarios, bases):
+        sites = b.get('sites') or []
+        for k in select_points(sites, full):
+            firsts.append(dict(s, events=[{'k': k, 'action': 'terminate'}], _site=sites[k - 1]))
+    r1 = run_cases(firsts, nproc=nproc)
+    cases = []
+    for c, o in zip(firsts, r1):
+        k1 = c['events'][0]['k']
+        sites = o.get('sites') or []
+        for k2 in range(k1 + 1, len(sites) + 1):
+            cases.append(dict(c, events=[{'k': k1, 'action': 'terminate', 'timeout': 0.02}, {'k': k2, 'action': 'terminate'}],
+                              _site=sites[k1 - 1], _site2=sites[k2 - 1]))
+    runs = run_cases(cases, nproc=nproc)
+    return bases, r1, runs
 
 
 def sweep(scenarios, actions, full=False, nproc=None, progress=None):
